@@ -18,7 +18,7 @@ func init() {
 		ID: "C15", Section: "4 C15",
 		Technique: "guarded-by lock-set analysis (type-based lock identity, held-on-entry fixpoint) over the reloadable tables, who-may-call census and call-graph reachability for the single-snapshot rule, value-flow of the published snapshot",
 		Meta: core.Meta{
-			Level: "other",
+			Level:       "other",
 			Explanation: "Decides: (a) guarded-by — BfeServer.ServerConf is read and written only under BfeServer.confLock (start-up InitDataLoad, reachable only from StartUp, exempt), ReverseProxy.transports only under tsMu, and in every module rule table (structs of bfe_modules/* with one mutex field and an Update method; count asserted) the fields Update replaces are accessed only under that table's lock; (b) single snapshot — GetServerConf and raw reads of ServerConf occur only in the reviewed set of entry functions (request construction, protocol handler, connection set-up, TLS-proxy helpers, health-check conf fetcher, reload and monitor handlers), none of them is reachable through static calls from ReverseProxy.ServeHTTP or FinishReq, and the routing steps findProduct/findCluster read the tables of req.SvrDataConf; (c) swap — the value stored into ServerConf is the result of LoadServerDataConf (fully built and checked before the locked store), each module table's Update replaces its fields inside one critical section, and code after the swap uses the local snapshot. Not covered: races through aliases (a table's inner maps mutated in place elsewhere), TLS reload internals, module filters reaching server state through closures (function values stored in container/list are not followed).",
 			RuleText:    "obligations = each access to a guarded field, each caller/raw reader of the server conf, each function reachable from the request path, each module table Update",
 			Assumptions: []string{"lock instances are identified by their containing type"},
@@ -31,6 +31,7 @@ func init() {
 			{Name: "module-table-split-update", File: "bfe_modules/mod_block/product_rule_table.go", Old: "	t.lock.Lock()\n	t.version = conf.Version\n	t.productRules = conf.Config\n	t.lock.Unlock()", New: "	t.lock.Lock()\n	t.version = conf.Version\n	t.lock.Unlock()\n	t.lock.Lock()\n	t.productRules = conf.Config\n	t.lock.Unlock()", Expect: "update-atomic"},
 			{Name: "transport-timeout-in-place-2", File: "bfe_server/reverseproxy.go", Old: "			newTransports[cluster] = transport\n		default:", New: "			t.ResponseHeaderTimeout = time.Millisecond * time.Duration(*backendConf.TimeoutResponseHeader)\n			newTransports[cluster] = transport\n		default:", Expect: "published-immutable"},
 			{Name: "tls-default-rule-after-unlock", File: "bfe_server/tls_server_rule.go", Old: "	m.lock.RLock()\n	defer m.lock.RUnlock()\n\n	// get tls rule conf by vip\n	if rule := m.getRuleByVip(c); rule != nil {\n		return rule\n	}\n\n	// get tls rule conf by sni (supported by modern browser)\n	if rule := m.getRuleBySni(c); rule != nil {\n		return rule\n	}\n", New: "	m.lock.RLock()\n	if rule := m.getRuleByVip(c); rule != nil {\n		m.lock.RUnlock()\n		return rule\n	}\n	if rule := m.getRuleBySni(c); rule != nil {\n		m.lock.RUnlock()\n		return rule\n	}\n	m.lock.RUnlock()\n", Expect: "guarded-by"},
+			{Name: "module-table-merged-on-reload", File: "bfe_modules/mod_redirect/redirect_table.go", Old: "	t.productRules = conf.Config\n", New: "	for k, v := range conf.Config {\n		t.productRules[k] = v\n	}\n", Expect: "update-replaces"},
 			{Name: "transports-unlocked", File: "bfe_server/reverseproxy.go", Old: "	p.tsMu.RLock()\n	transport, ok := p.transports[cluster.Name]\n	p.tsMu.RUnlock()", New: "	transport, ok := p.transports[cluster.Name]", Expect: "guarded-by"},
 			{Name: "reload-mutates-snapshot-alias", File: "bfe_balance/bal_table.go", Old: "	t.lock.Lock()\n\n	var fails []string\n	bmNew := make(BalMap)\n	for clusterName, gslbConf := range *gslbConfs.Clusters {\n		bal, ok := t.balTable[clusterName]\n		if !ok {\n			// new one balance\n			bal = bal_gslb.NewBalanceGslb(clusterName)\n		} else {\n			delete(t.balTable, clusterName)\n		}", New: "	t.lock.RLock()\n	bmOld := t.balTable\n	t.lock.RUnlock()\n	t.lock.Lock()\n	t.lock.Unlock()\n\n	var fails []string\n	bmNew := make(BalMap)\n	for clusterName, gslbConf := range *gslbConfs.Clusters {\n		bal, ok := bmOld[clusterName]\n		if !ok {\n			// new one balance\n			bal = bal_gslb.NewBalanceGslb(clusterName)\n		} else {\n			delete(bmOld, clusterName)\n		}\n		t.lock.Lock()", Expect: "guarded-mutation"},
 			{Name: "swap-unchecked-conf", File: "bfe_server/bfe_confdata_load.go", Old: "	srv.confLock.Lock()\n	srv.ServerConf = newServerConf\n	srv.confLock.Unlock()\n", New: "	srv.confLock.Lock()\n	srv.ServerConf = &bfe_route.ServerDataConf{HostTable: newServerConf.HostTable}\n	srv.ServerConf.ClusterTable = newServerConf.ClusterTable\n	srv.confLock.Unlock()\n", Expect: "swap-value"},
@@ -156,6 +157,10 @@ func runC15(c *core.Ctx) {
 			})
 			c.Check("update-atomic", rel+"."+name+".Update", ufn.Pos(), len(replaced) > 0 && len(sections) == 1 && !sections["unlocked"] && !sections[""],
 				fmt.Sprintf("%s.Update must replace its fields inside one critical section of %s (stores: %d, distinct sections: %d); a reader between two sections sees the new version with the old rules", name, lock, len(replaced), len(sections)))
+			for _, prob := range tableUpdateProblems(ufn, st, lockField) {
+				c.Check("update-replaces", rel+"."+name+".Update:"+prob.key, prob.pos, false, name+".Update "+prob.msg)
+			}
+			c.Check("update-replaces", rel+"."+name+".Update", ufn.Pos(), true, "")
 			for _, fv := range replaced {
 				specs = append(specs, guardSpec{fv, lock, map[string]bool{rel + ".New" + name: true, rel + ".new" + name: true, rel + ".New" + strings.Title(name): true}})
 			}
@@ -454,4 +459,74 @@ func runC15(c *core.Ctx) {
 			}
 		})
 	}
+}
+
+type tableProblem struct {
+	key, msg string
+	pos      token.Pos
+}
+
+// tableUpdateProblems: a reloadable table's Update must swap in the new generation as a whole:
+// every map/slice field of the table is overwritten by Update (not merged into), and the old
+// container is not mutated in place (readers hold references to it after releasing the lock, and
+// entries dropped from the new file would survive the reload).
+func tableUpdateProblems(ufn *ssa.Function, st *types.Struct, lockField *types.Var) []tableProblem {
+	var out []tableProblem
+	if len(ufn.Params) == 0 {
+		return out
+	}
+	recv := ufn.Params[0]
+	stored := map[*types.Var]bool{}
+	core.Instrs(ufn, func(in ssa.Instruction) {
+		switch x := in.(type) {
+		case *ssa.Store:
+			if fa, ok := x.Addr.(*ssa.FieldAddr); ok && fa.X == ssa.Value(recv) {
+				if fv := core.FieldObj(fa.X, fa.Field); fv != nil {
+					stored[fv] = true
+					// the stored value must not be the old container itself
+					if ld, isLd := core.StripConv(x.Val).(*ssa.UnOp); isLd && ld.Op == token.MUL {
+						if fa2, isFA := ld.X.(*ssa.FieldAddr); isFA && fa2.X == ssa.Value(recv) && core.FieldObj(fa2.X, fa2.Field) == fv {
+							out = append(out, tableProblem{fv.Name() + ":self-store", "stores the old value of " + fv.Name() + " back instead of the new generation", x.Pos()})
+						}
+					}
+				}
+			}
+		case *ssa.MapUpdate:
+			if fv := recvFieldLoad(x.Map, recv); fv != nil {
+				out = append(out, tableProblem{fv.Name() + ":merge", "writes entries into the existing " + fv.Name() + " map instead of replacing it: entries that the new file no longer contains survive the reload, and readers holding the old map see it change", x.Pos()})
+			}
+		case *ssa.Call:
+			if b, ok := x.Call.Value.(*ssa.Builtin); ok && b.Name() == "delete" && len(x.Call.Args) > 0 {
+				if fv := recvFieldLoad(x.Call.Args[0], recv); fv != nil {
+					out = append(out, tableProblem{fv.Name() + ":delete", "deletes from the existing " + fv.Name() + " map in place", x.Pos()})
+				}
+			}
+		}
+	})
+	for i := 0; i < st.NumFields(); i++ {
+		f := st.Field(i)
+		if f == lockField {
+			continue
+		}
+		switch f.Type().Underlying().(type) {
+		case *types.Map, *types.Slice:
+			if !stored[f] {
+				out = append(out, tableProblem{f.Name() + ":not-replaced", "never overwrites the container field " + f.Name() + ": the previous generation's entries stay in force after a reload", ufn.Pos()})
+			}
+		}
+	}
+	return out
+}
+
+// recvFieldLoad: v is (a phi-free) load of a field of recv -> that field.
+func recvFieldLoad(v ssa.Value, recv *ssa.Parameter) *types.Var {
+	ld, ok := core.StripConv(v).(*ssa.UnOp)
+	if !ok || ld.Op != token.MUL {
+		return nil
+	}
+	fa, ok := ld.X.(*ssa.FieldAddr)
+	if !ok || fa.X != ssa.Value(recv) {
+		return nil
+	}
+	return core.FieldObj(fa.X, fa.Field)
 }
